@@ -261,7 +261,7 @@ def empty(slice_i, n):
         yield {"model": spec, "points": None, "obj": []}
 
 def parts(tier):
-    return [Part("scale", strategy=lambda t: S.scale_case(booleans_only=True).map(lambda c: dict(c, obj=[], near_miss=True)), check=check, quick=(2, 30), thorough=(4, 400)), Part("concat_names", enumerate_cases=(lambda t: ({"model": {"k": "Not", "c": [s_]}, "points": None, "obj": []} for s_ in __import__("vf.strategies", fromlist=["x"]).concat_shapes())), check=check, time_quick=150.0), Part("empty0", enumerate_cases=(lambda t: empty(0, 1)), check=check, time_quick=120.0), Part("class_twins", strategy=lambda t: S.class_twin_spec().map(lambda s_: {"model": s_, "points": None, "obj": [], "tier": t}), check=check, quick=(1, 300), thorough=(2, 3000))] + [Part("bounding%d" % i, enumerate_cases=(lambda t, i=i: ({"model": s_, "points": None, "obj": [], "tier": "quick"} for s_ in S.bounding_shapes(i, 2))), check=check, time_quick=120.0) for i in range(2)] + [Part("mixed%d" % i, enumerate_cases=(lambda t, i=i: mixed(i, 8)), check=check, time_quick=150.0) for i in range(8)] + [Part("shapes%d" % i, enumerate_cases=(lambda t, i=i: shapes(i, 4)), check=check, time_quick=120.0) for i in range(4)] + [
+    return [Part("bigm32", enumerate_cases=(lambda t: (dict(c_, obj=[[1] * 8, [-1, 2, -3, 4, -5, 6, -7, 8]], tier=t) for c_ in S.bigm32_cases())), check=check, time_quick=100.0), Part("scale", strategy=lambda t: S.scale_case(booleans_only=True).map(lambda c: dict(c, obj=[], near_miss=True)), check=check, quick=(2, 30), thorough=(4, 400)), Part("concat_names", enumerate_cases=(lambda t: ({"model": {"k": "Not", "c": [s_]}, "points": None, "obj": []} for s_ in __import__("vf.strategies", fromlist=["x"]).concat_shapes())), check=check, time_quick=150.0), Part("empty0", enumerate_cases=(lambda t: empty(0, 1)), check=check, time_quick=120.0), Part("class_twins", strategy=lambda t: S.class_twin_spec().map(lambda s_: {"model": s_, "points": None, "obj": [], "tier": t}), check=check, quick=(1, 300), thorough=(2, 3000))] + [Part("bounding%d" % i, enumerate_cases=(lambda t, i=i: ({"model": s_, "points": None, "obj": [], "tier": "quick"} for s_ in S.bounding_shapes(i, 2))), check=check, time_quick=120.0) for i in range(2)] + [Part("mixed%d" % i, enumerate_cases=(lambda t, i=i: mixed(i, 8)), check=check, time_quick=150.0) for i in range(8)] + [Part("shapes%d" % i, enumerate_cases=(lambda t, i=i: shapes(i, 4)), check=check, time_quick=120.0) for i in range(4)] + [
         Part("small", strategy=lambda t: _with_tier(case_strategy(t, "small"), t), check=check, quick=(6, 200), thorough=(12, 1500)),
         Part("large", strategy=lambda t: _with_tier(case_strategy(t, "large"), t), check=check, quick=(2, 80), thorough=(4, 500)),
         Part("huge", strategy=lambda t: _with_tier(case_strategy(t, "huge"), t), check=check, quick=(1, 80), thorough=(2, 500)),
